@@ -20,7 +20,9 @@ fn named_reason(r: &str) -> Option<&'static str> {
         "unknown tag" => "unknown-tag",
         "digest length" => "digest-length",
         "assertion map arity" => "assertion-map-arity",
-        "non-shortest head" | "indefinite or reserved additional info" | "map keys not strictly ascending" | "non-canonical encoding" | "trailing bytes" => "non-deterministic-cbor",
+        "non-shortest head" | "indefinite or reserved additional info" | "map keys not strictly ascending" | "non-canonical encoding" | "trailing bytes" | "integral float not reduced" => "non-deterministic-cbor",
+        "integral float not reduced: f32 outside i32 range" => "non-deterministic-cbor:integral-f32-outside-i32-range",
+        "integral float not reduced: f64 outside i64 range" => "non-deterministic-cbor:integral-f64-outside-i64-range",
         _ => return None,
     })
 }
@@ -152,7 +154,10 @@ fn handwritten() -> Vec<(String, Vec<u8>)> {
     // leaf payloads that dCBOR forbids
     for (n, payload) in [("float-2.0-as-f16", vec![0xf9, 0x40, 0x00]), ("float-1.5-as-f32", vec![0xfa, 0x3f, 0xc0, 0x00, 0x00]), ("float-1.5-as-f64", vec![0xfb, 0x3f, 0xf8, 0, 0, 0, 0, 0, 0]), ("nan-noncanonical", vec![0xf9, 0x7e, 0x01]), ("nan-f64", vec![0xfb, 0x7f, 0xf8, 0, 0, 0, 0, 0, 0]),
         ("neg-zero-f16", vec![0xf9, 0x80, 0x00]), ("map-unsorted", vec![0xa2, 0x02, 0x01, 0x01, 0x02]), ("map-duplicate-key", vec![0xa2, 0x01, 0x01, 0x01, 0x02]), ("simple-undefined", vec![0xf7]), ("simple-16", vec![0xf0]), ("simple-ext", vec![0xf8, 0x20]),
-        ("text-invalid-utf8", vec![0x62, 0xc3, 0x28]), ("text-non-nfc", vec![0x63, 0x65, 0xcc, 0x81]), ("uint-as-2bytes", vec![0x19, 0x00, 0x01]), ("break-alone", vec![0xff]), ("bigfloat-reducible-1e18", vec![0xfb, 0x43, 0xab, 0xc1, 0x6d, 0x67, 0x4e, 0xc8, 0x00])] {
+        ("text-invalid-utf8", vec![0x62, 0xc3, 0x28]), ("text-non-nfc", vec![0x63, 0x65, 0xcc, 0x81]), ("uint-as-2bytes", vec![0x19, 0x00, 0x01]), ("break-alone", vec![0xff]), ("bigfloat-reducible-1e18", vec![0xfb, 0x43, 0xab, 0xc1, 0x6d, 0x67, 0x4e, 0xc8, 0x00]),
+        // integral floats outside the i32 / i64 range (dcbor 0.17.1 validates f32 against i32 and f64 against i64 only, then re-encodes them as integers)
+        ("f32-integral-2^40", vec![0xfa, 0x53, 0x80, 0x00, 0x00]), ("f32-integral-negative-large", vec![0xfa, 0xd8, 0xc8, 0xd8, 0xc9]), ("f64-integral-2^63", vec![0xfb, 0x43, 0xe0, 0, 0, 0, 0, 0, 0]),
+        ("f64-integral-below-i64", vec![0xfb, 0xc3, 0xe0, 0, 0, 0, 0, 0, 0x01]), ("f32-integral-2^31", vec![0xfa, 0x4f, 0x00, 0x00, 0x00])] {
         let mut b = vec![0xd8, 0xc9]; b.extend(payload); out.push((format!("leaf-{n}"), env(b)));
     }
     // assertion map with unsorted / duplicate keys (two entries), node arrays of length 0 and 1
@@ -214,7 +219,7 @@ pub fn run(ctx: &Ctx) -> i32 {
     for (n, b) in &sd { judge(&mut acc, b, "valid", &|| format!("f1/{n}")); if grammar::recognise(b).is_err() { acc.viol("C06|machinery|recogniser-rejects-valid", "independent recogniser rejects a library-produced encoding", format!("f1/{n}"), json!({"input": hex::encode(b)})) } }
     acc.add("family1_valid", sd.len() as u64);
     // family 2: structural mutations (single; double in the thorough tier) + non-deterministic re-encodings + hand-written classes
-    let f2: Acc = sd.par_iter().map(|(n, b)| {
+    let f2: Acc = sd.par_iter().with_max_len(1).map(|(n, b)| {
         let mut acc = Acc::new();
         let Ok(v) = grammar::parse_cbor(b) else { return acc };
         let mut muts = vec![]; mutations(&v, &mut muts, &|x| x, false);
@@ -237,7 +242,7 @@ pub fn run(ctx: &Ctx) -> i32 {
     for (class, b) in handwritten() { acc.inc("family2_handwritten"); judge(&mut acc, &b, &class, &|| format!("f2hw/{class}")) }
     // family 3: every single-byte replacement, deletion and insertion
     let sd3 = seeds(if th { 4 } else { 3 });
-    let f3: Acc = sd3.par_iter().map(|(n, b)| {
+    let f3: Acc = sd3.par_iter().with_max_len(1).map(|(n, b)| {
         let mut acc = Acc::new();
         for off in 0..b.len() {
             for x in 0..=255u8 { if x != b[off] { let mut m = b.clone(); m[off] = x; acc.inc("family3_bytes"); judge(&mut acc, &m, "byte-replace", &|| format!("f3/{n}/replace@{off}={x:02x}")) } }
